@@ -56,7 +56,8 @@ def events_case(draw):
         ref = sorted(round(draw(st.floats(5, 15)), 3) for _ in range(n))
         est = sorted(round(min(15.0, max(5.0, r + draw(st.floats(-0.2, 0.2)))), 3) for r in ref if draw(st.integers(0, 4)))
     t1, t2 = draw(two(TOLS))
-    return {"ref": ref, "est": est, "t1": t1, "t2": t2}
+    bkw = R.subset(draw, {k: v for k, v in R.BEAT_KW.items() if k != "min_beat_time"}) if draw(st.booleans()) else {}
+    return {"ref": ref, "est": est, "t1": t1, "t2": t2, "beat_kw": bkw}
 
 
 def pred_events(case, ctx):
@@ -68,7 +69,9 @@ def pred_events(case, ctx):
     if m2 < m1:
         raise Violation("match_events: %d hits with window %r but %d with %r" % (m1, t1, m2, t2))
     # nested beat criteria from one evaluate()
-    sc = ctx.call(beat.evaluate, r, e)
+    sc = ctx.call(beat.evaluate, r, e, **case.get("beat_kw", {}))        # the nesting holds for every setting of the thresholds
+    if case.get("beat_kw"):
+        ctx.event("beat_keywords")
     for lo, hi in (("Cemgil", "Cemgil Best Metric Level"), ("Correct Metric Level Continuous", "Correct Metric Level Total"),
                    ("Any Metric Level Continuous", "Any Metric Level Total"), ("Correct Metric Level Continuous", "Any Metric Level Continuous"),
                    ("Correct Metric Level Total", "Any Metric Level Total")):
@@ -164,13 +167,17 @@ def pred_notes(case, ctx):
 
 @st.composite
 def melody_case(draw):
-    c = draw(gt.melody_case(allow_params=False))
+    c = draw(gt.melody_case(allow_params=True))
     c["t1"], c["t2"] = draw(two([0.0, 10, 25, 35.5, 50, 100, 600, 1200.0]))
     return c
 
 
 def pred_melody(case, ctx):
-    rv, rc, ev, ec = ctx.call(melody.to_cent_voicing, _a(case["ref_time"]), _a(case["ref_freq"]), _a(case["est_time"]), _a(case["est_freq"]))
+    # the pre-processing keywords (continuous voicing, reward, hop, interpolation kind) are held fixed while the tolerance varies
+    pre = {k: (_a(v) if isinstance(v, list) else v) for k, v in case.get("kw", {}).items() if k in ("est_voicing", "ref_reward", "hop", "kind")}
+    if pre:
+        ctx.event("preprocessing_keywords:" + "+".join(sorted(pre)))
+    rv, rc, ev, ec = ctx.call(melody.to_cent_voicing, _a(case["ref_time"]), _a(case["ref_freq"]), _a(case["est_time"]), _a(case["est_freq"]), **pre)
     nt = False
     for fn in (melody.raw_pitch_accuracy, melody.raw_chroma_accuracy, melody.overall_accuracy):
         nt |= _mono("melody.%s(cent_tolerance)" % fn.__name__, ctx.call(fn, rv, rc, ev, ec, cent_tolerance=case["t1"]), ctx.call(fn, rv, rc, ev, ec, cent_tolerance=case["t2"]), case)
